@@ -220,9 +220,12 @@ fn keys_fp(keys: &lightning_signer::lightning::sign::InMemorySigner) -> String {
     let pk = keys.pubkeys();
     let p0 = keys.get_per_commitment_point((1u64 << 48) - 1, &secp).map(|p| p.to_string()).unwrap_or_default();
     let p1 = keys.get_per_commitment_point((1u64 << 48) - 2, &secp).map(|p| p.to_string()).unwrap_or_default();
+    // the signer as LDK serialises it: keys, channel parameters, channel value, key id
+    use lightning_signer::lightning::util::ser::Writeable;
+    let ser = hex::encode(keys.encode());
     format!(
-        "funding={} rev={} pay={} delayed={} htlc={} p0={} p1={}",
-        pk.funding_pubkey, pk.revocation_basepoint.0, pk.payment_point, pk.delayed_payment_basepoint.0, pk.htlc_basepoint.0, p0, p1
+        "funding={} rev={} pay={} delayed={} htlc={} p0={} p1={} signer={}",
+        pk.funding_pubkey, pk.revocation_basepoint.0, pk.payment_point, pk.delayed_payment_basepoint.0, pk.htlc_basepoint.0, p0, p1, ser
     )
 }
 
